@@ -596,6 +596,16 @@ def entry_shape(mod):
 # update_alias_range_dimension
 
 
+def _int_lit(n):
+    """an integer literal (with sign), else None"""
+    if isinstance(n, ast.UnaryOp) and isinstance(n.op, (ast.USub, ast.UAdd)):
+        x = _int_lit(n.operand)
+        return None if x is None else (-x if isinstance(n.op, ast.USub) else x)
+    if isinstance(n, ast.Constant) and type(n.value) is int:
+        return n.value
+    return None
+
+
 def dims_shape(mod):
     fn = _func(mod.body, "update_alias_range_dimension")
     tests = [n for n in ast.walk(fn) if isinstance(n, ast.If) and len(n.body) == 1
@@ -612,6 +622,8 @@ def dims_shape(mod):
     _check_open(w, "update_alias_dims")
     skip = None
     ops = []
+    link_attrs = []
+    now_bound = False
     for st in w.body:
         s = ast.unparse(st)
         if s in ("dim = hfile[dimname]", "parentda = dim.parent.parent", "daid = parentda.attrs['entity_id']"):
@@ -627,14 +639,25 @@ def dims_shape(mod):
             ops.append("create:link")
         elif isinstance(st, ast.Assign) and ast.unparse(st.targets[0]).startswith("link.attrs["):
             key = st.targets[0].slice.value
-            val = {"entity_id": "nix.util.create_id()", "data_object_type": "'DataArray'", "index": "[-1]",
-                   "created_at": "now", "updated_at": "now"}.get(key)
-            if val is None or ast.unparse(st.value) != val:
+            v = st.value
+            if ast.unparse(v) == "nix.util.create_id()":
+                val = ".freshId"
+            elif isinstance(v, ast.Constant) and isinstance(v.value, str):
+                val = "(.text %s)" % lean_str(v.value)
+            elif isinstance(v, ast.List) and v.elts and all(_int_lit(e) is not None for e in v.elts):
+                val = "(.ints [%s])" % ", ".join(str(_int_lit(e)) for e in v.elts)
+            elif _is_name(v, "now") and now_bound:
+                val = ".now"
+            else:
                 raise ExtractError("update_alias_dims line %d: %s is not modelled" % (st.lineno, s))
+            if not isinstance(key, str) or key in [k for k, _ in link_attrs]:
+                raise ExtractError("update_alias_dims line %d: attribute %r written twice" % (st.lineno, key))
+            link_attrs.append((key, val))
             ops.append("attr:" + key)
         elif s == "link[daid] = parentda":
             ops.append("target")
         elif s == "now = nix.util.time_to_str(nix.util.now_int())":
+            now_bound = True
             continue
         elif s == "del dim[daid]":
             ops.append("delete:alias")
@@ -642,7 +665,7 @@ def dims_shape(mod):
             raise ExtractError("update_alias_dims line %d: %s is not modelled" % (st.lineno, s))
     if skip is None:
         raise ExtractError("update_alias_dims: no re-check")
-    return find, skip, ops
+    return find, skip, ops, ["(%s, %s)" % (lean_str(k), v) for k, v in link_attrs]
 
 
 # ------------------------------------------------------------------------------------------------
@@ -759,12 +782,12 @@ def shape(repo):
     op, order = collect_shape(mod)
     pfind, precheck, pops, rules, refusal, main_args = props_shape(mod)
     cparams, cdataset, cwrites = create_shape(mod)
-    dfind, dskip, dops = dims_shape(mod)
+    dfind, dskip, dops, dlink = dims_shape(mod)
     outer, inner = id_shape(mod)
     return {"op": op, "order": order, "process": process_shape(mod), "id_outer": outer, "id_recheck": inner,
             "bump": bump_shape(mod), "refusal": refusal, "pfind": pfind, "precheck": precheck, "pops": pops, "rules": rules,
             "dfind": dfind, "dskip": dskip, "dops": dops, "readers": readers_shape(repo),
-            "main_args": main_args, "cparams": cparams, "cdataset": cdataset, "cwrites": cwrites,
+            "dlink": dlink, "main_args": main_args, "cparams": cparams, "cdataset": cdataset, "cwrites": cwrites,
             "id_valid": valid_id_shape(mod), "version_raw": version_shape(mod), "entry": entry_shape(mod)}
 
 
@@ -826,7 +849,9 @@ def render(sh):
         "/-- `get_file_version` returns the header's `version` attribute as a tuple and nothing else -/\n"
         "def versionIsHeaderAttr : Bool := %s\n"
         "/-- `file_upgrade`: what runs inside `try` (an exception makes it return False, the normal end True) -/\n"
-        "def entryOps : List String := [%s]\n\n"
+        "def entryOps : List String := [%s]\n"
+        "/-- `update_alias_dims`: attributes written on the new link group and their values -/\n"
+        "def linkAttrs : List (String × LinkVal) := [%s]\n\n"
         "end Nix.Upgrade.Gen\n" % (
             sh["op"], order, sh["process"], lean_bool(sh["id_outer"]), lean_bool(sh["id_recheck"]),
             lean_bool(sh["bump"]), sh["pfind"], sh["precheck"], ", ".join(lean_str(o) for o in sh["pops"]),
@@ -834,7 +859,7 @@ def render(sh):
             render_readers(*sh["readers"]),
             ", ".join(sh["main_args"]), ", ".join(sh["cparams"]), ", ".join(sh["cdataset"]),
             ",\n  ".join(sh["cwrites"]), sh["id_valid"], lean_bool(sh["version_raw"]),
-            ", ".join(lean_str(o) for o in sh["entry"])))
+            ", ".join(lean_str(o) for o in sh["entry"]), ", ".join(sh["dlink"])))
 
 
 def extract(repo):
